@@ -29,9 +29,11 @@ def build(r, word):
         steps.append(dict(op="mark", name="seg-%d" % seg[0]))
 
     def quiesce():
-        # logical quiescence: a ping IQ from the server is answered after everything the client did for the previous step
+        # logical quiescence: the answer to <r/> (or, without stream management, to a ping IQ) comes after everything the client did for the
+        # previous step. With stream management the fence must not make the client send a stanza: the idle state "everything acknowledged"
+        # has to be reachable (a ping reply would always leave one unacknowledged stanza behind).
         if connected[0]:
-            steps.append(dict(op="fence", sm=False))
+            steps.append(dict(op="fence", sm=bool(sm_on[0])))
         else:
             steps.append(dict(op="settle", quiet=10))
 
@@ -133,6 +135,8 @@ def judge2(journal, plan, markers, viol, stats):
     max_h = {}
     r_queue = collections.defaultdict(list)     # conn -> delivered count at each <r/> the server sent, in order
     checks = {}                    # conn -> expected retransmissions
+    positions = collections.defaultdict(set)    # (session, marker) -> positions at which the server counted it
+    max_pos = {}                   # session -> highest position counted so far
     hostile = False                # an ack beyond what was sent / below what was acked: client and server numbering no longer agree by definition
     for e in journal:
         if e["ev"] == "send_done":
@@ -143,15 +147,21 @@ def judge2(journal, plan, markers, viol, stats):
             stats["kind:" + e["kind"]] += 1
             if e["kind"] == "acknowledged":
                 stats["acknowledged"] += 1
-                if m not in covered:
+                if m not in covered and hostile:
+                    stats["acknowledged_not_judged_after_inconsistent_ack"] += 1
+                elif m not in covered:
                     viol.append(("acknowledged-without-cover", "a stanza was reported 'acknowledged' although no <a h/> or <resumed h/> delivered so far covers it",
                                  dict(w0, marker=m, covered=sorted(covered, key=lambda x: order.get(x, 0)))))
         elif e["ev"] == "srv_rx" and e["kind"] == "element":
             c = e["conn"]
             sid = sess_of_conn.get(c)
             if e["tag"] in STANZAS and sid is not None:
-                if e["xml"] not in arrivals[sid]:
-                    arrivals[sid].append(e["xml"])
+                # position of a stanza = the server's own count when it arrived (a retransmission after <resumed h/> is counted from h on again);
+                # identical stanzas (two presences with the same content) are different positions
+                arrivals[sid].append(e["xml"])
+                max_pos[sid] = max(max_pos.get(sid, 0), int(e.get("sm_inbound") or 0))
+                if e["tag"] in ("message", "presence") and e.get("id", "").startswith("mk"):
+                    positions[(sid, e["id"])].add(int(e.get("sm_inbound") or 0))
             if e["tag"] in ("message", "presence") and e.get("id", "").startswith("mk"):
                 m = e["id"]
                 seen_conn[c].append(m)
@@ -196,12 +206,11 @@ def judge2(journal, plan, markers, viol, stats):
                 r_queue[c].append(delivered.get(sid, 0))
             if mm and mm.group(1) in ("a", "resumed"):
                 h = int(mm.group(2))
-                arr = arrivals.get(sid, [])
-                if h > len(arr) or h < max_h.get(sid, 0):
+                if h > max_pos.get(sid, 0) or h < max_h.get(sid, 0):
                     hostile = True
                 max_h[sid] = max(max_h.get(sid, 0), h)
-                for m, mx in marker_xml.items():
-                    if marker_sess.get(m) is not None and mx in arr and arr.index(mx) + 1 <= h:
+                for m in marker_xml:
+                    if marker_sess.get(m) is not None and any(p_ <= h for p_ in positions.get((sid, m), ())):
                         covered.add(m)
             if mm and mm.group(1) in ("enabled", "resumed") and c > 0:
                 # what must come again on this connection: sent under stream management, not covered, report still open
@@ -295,6 +304,24 @@ def main(tier, replay=None):
     for d in range(1, depth + 1):
         for w in itertools.product(A, repeat=d):
             words.append([("send",), ("send",)] + list(w))
+    # session chains: what the first session leaves behind (all acknowledged / something in flight / stanzas received) must not leak into the
+    # counters of the next one, whichever way the next one starts
+    RECON = [a for a in A if a[0] == "reconnect"]
+    PRE = [[], [("ack", "exact")], [("deliver", "message"), ("ack", "exact")], [("ack", "minus1")], [("deliver", "message"), ("deliver", "message")]]
+    POST = [[("r",)], [("send",), ("ack", "exact")], [("deliver", "message"), ("r",)], [("send",), ("r",), ("ack", "exact")]]
+    chains = 0
+    for k in (0, 1, 2):
+        for pre in PRE:
+            for x in RECON:
+                for post in POST:
+                    words.append([("send",)] * k + pre + [("cut",), x] + post)
+                    chains += 1
+    for x in RECON:
+        for y in RECON:
+            for pre in PRE[:3]:
+                for post in POST[:2]:
+                    words.append([("send",), ("send",)] + pre + [("cut",), x, ("send",), ("ack", "exact"), ("cut",), y] + post)
+                    chains += 1
     nrandom = (20000 if tier == "quick" else 1000000) // W
     with ProcessPoolExecutor(max_workers=W) as pool:
         res = list(pool.map(worker, [(w, nrandom, words[w::W]) for w in range(W)]))
@@ -307,7 +334,7 @@ def main(tier, replay=None):
         stats.update(st)
     cov = {"evaluations": stats["stanzas"] + stats["client_h_reports"], "distinct_nontrivial": stats["acknowledged"] + stats["resent_ok"] + stats["client_h_ok"],
            "rule": "histories over {send message/presence (unique markers), server <a h/> with h exact/minus one/stale/zero/beyond, server <r/>, deliver message/presence/iq/nonza/two stanzas, connection loss, resume accepted with h all/some/none/stale, "
-                   "resume refused then new session with or without stream management}: two initial sends followed by every word of length <= %d over a %d-letter alphabet, plus random words up to length 40; the fake server keeps its own "
+                   "resume refused then new session with or without stream management}: two initial sends followed by every word of length <= %d over a %d-letter alphabet, 390 two- and three-session chains ({nothing, all acked, received+acked, one unacked} x cut x 5 ways to start the next session x 4 continuations), plus random words up to length 40; the fake server keeps its own "
                    "XEP-0198 counters (reference) and decides which acks it delivers; oracle: 'acknowledged' only for covered positions, no report twice, retransmissions on a resumed/new session are exactly the uncovered stanzas in original "
                    "order, covered ones never come again, every <a h/> and <resume h/> from the client equals the number of stanzas delivered" % (depth, len(A)),
            "observed": dict(stats), "exhaustive_words": len(words), "samples": [{"word": [list(map(str, x)) for x in words[min(len(words) - 1, 500)]]}]}
